@@ -57,7 +57,7 @@ theorem hook_calls_ok (eff : Content → FS → FS) (w : World) (p : Plan) :
       exact hw { w with pyc := pyc1 } p.size2 p.fates2 _ rfl rfl x (by simpa using hx)
 
 theorem needsRegen_iff (w : World) (c : Content) :
-    needsRegen w c = true ↔ (c.magic ≠ magicNumber ∨ c.file ≠ w.fileId) := by
+    needsRegen w c = true ↔ (c.magic ≠ magicNumber ∨ normOf c.file ≠ normOf w.fileId) := by
   simp [needsRegen, magicRecheck_on, fileRecheck_on]
 
 /-- the hook is called iff a (re)write is due -/
@@ -86,7 +86,7 @@ theorem hook_called_iff (eff : Content → FS → FS) (w : World) (p : Plan) (hg
       obtain ⟨pyc1, hl, _⟩ := loadMod_fresh w f hf (hgood f hf) (fun m s c hp h1 h2 => hcoh m s c f hp hf h1 h2)
       have hc : construct (hookWriter eff) w p = phase2 (hookWriter eff) w p p.crash [] 0 [] := by
         unfold construct; simp [hd']
-      by_cases hm : f.content.magic = magicNumber ∧ f.content.file = w.fileId
+      by_cases hm : f.content.magic = magicNumber ∧ normOf f.content.file = normOf w.fileId
       · rw [hc, phase2_reuse _ _ _ _ _ _ _ _ _ hl hm.1 hm.2]
         constructor
         · intro h; exact absurd rfl h
@@ -98,7 +98,7 @@ theorem hook_called_iff (eff : Content → FS → FS) (w : World) (p : Plan) (hg
             · exact absurd (Or.inr ⟨f, hf, h⟩) hnd
             · exact absurd hm.1 h
             · exact absurd hm.2 h
-      · have hm' : f.content.magic ≠ magicNumber ∨ f.content.file ≠ w.fileId := by
+      · have hm' : f.content.magic ≠ magicNumber ∨ normOf f.content.file ≠ normOf w.fileId := by
           by_cases h1 : f.content.magic = magicNumber
           · exact Or.inr (fun h2 => hm ⟨h1, h2⟩)
           · exact Or.inl h1
@@ -148,7 +148,7 @@ theorem hook_called_once (eff : Content → FS → FS) (w : World) (p : Plan) (h
       obtain ⟨pyc1, hl, _⟩ := loadMod_fresh w f hf (hgood f hf) (fun m s c hp h1 h2 => hcoh m s c f hp hf h1 h2)
       have hc : construct (hookWriter eff) w p = phase2 (hookWriter eff) w p p.crash [] 0 [] := by
         unfold construct; simp [hd']
-      have hm : f.content.magic ≠ magicNumber ∨ f.content.file ≠ w.fileId := by
+      have hm : f.content.magic ≠ magicNumber ∨ normOf f.content.file ≠ normOf w.fileId := by
         rcases hdue with h | ⟨f', hf', h⟩
         · rw [hf] at h; cases h
         · rw [hf] at hf'; cases hf'
